@@ -903,7 +903,8 @@ Proof.
   destruct (G es 0) as (H1 & H2 & H3). split; [exact H2|].
   intros Hne. destruct H3 as [H3|(e & He & H3)].
   - destruct es as [|e es']; [congruence|]. exists e. split; [now left|].
-    pose proof (H2 e (or_introl eq_refl)) as H4. fold f. rewrite H3 in *. lia.
+    pose proof (H2 e (or_introl eq_refl)) as H4. change (parse_ts (fst e) = fold_left f (e :: es') 0).
+    rewrite H3 in *. lia.
   - exists e. now split.
 Qed.
 
